@@ -122,22 +122,29 @@ def run(ck):
         bad_before = []
         bound_blocks = [b.id for b in f.blocks.values() if b.term and "c:Pistache::PollableQueue::isBound" in [strip_tmpl(r) for r in (b.term.get("refs") or [])]]
 
-        def step(st, ev):
+        fstep = lib.flag_step(prog, f)
+
+        def step(st0, ev):
+            st, flags = st0
             if must_drain(ev):      # the read itself, or a helper every path of which reads the eventfd
-                return "drained"
+                return ("drained", flags)
             if ev in qpop:
                 if st == "init":
                     bad_before.append(ev)
                 return None
-            return st
+            return (st, fstep(flags, ev))
 
-        def edge(st, blk, k, succ):
+        def edge(st0, blk, k, succ):
+            st, flags = st0
+            # named bool locals with a known value decide their branches (`bool drained = false; while (!drained) ...` is entered)
+            if lib.flag_edge(flags, blk, k, succ) is None:
+                return None
             if blk.id in bound_blocks and blk.term.get("k") == "if":
                 unbound_edge = 0 if blk.term.get("neg") else 1
                 if k == unbound_edge:
-                    return "unbound"
-            return st
-        cfg.run_automaton(f, "init", step, edge=edge)
+                    return ("unbound", flags)
+            return st0
+        cfg.run_automaton(f, ("init", frozenset()), step, edge=edge)
         ok = not reads_after and not bad_before
         detail = "drain precedes Queue::pop on every bound path; nothing read after the pop"
         if reads_after:
